@@ -24,6 +24,15 @@ class Builtins:
                 raise OutOfSubset('iteration over a raising generator', node)
             return VIter(g.n, lambda i, s: VVal(self.gen_at(g, g.val, i)),
                          keep=(lambda i, s: self.gen_at(g, g.keep, i)) if g.keep is not None else None)
+        if isinstance(sv, VVal) and sv.cls is not None and self.idx.find_method(sv.cls, '__iter__') is not None:
+            fi = self.idx.find_method(sv.cls, '__iter__')
+            f = VFunc(fi.node, {}, fi.module, fi.qualname, self_sv=sv, cls=sv.cls)
+            outs = self.inline_call(f, [], {}, st, node, self_sv=sv)
+            oks = [(r, s2) for r, s2 in outs if not isinstance(r, Raised)]
+            if len(outs) != 1 or len(oks) != 1:
+                raise OutOfSubset('__iter__ forks or raises', node)
+            st.pc[:] = oks[0][1].pc
+            return self.itersrc(oks[0][0], st, None)
         if isinstance(sv, VVal):
             kind = sv.kind
             src = self.src(node) if node is not None else ''
@@ -1020,6 +1029,26 @@ class Builtins:
             return [(VBool(th.fn('val_lt', th.Val, th.Val, th.B)(V(0), V(1))), st)]
         if name == 'card':
             return self.bi_len(args, kwargs, st, node)
+        if name == 'get_origin':
+            return self.bi_typing_get_origin(args, kwargs, st, node)
+        if name == 'get_args':
+            return self.bi_typing_get_args(args, kwargs, st, node)
+        if name == 'isabstract':
+            return self.bi_inspect_isabstract(args, kwargs, st, node)
+        if name == 'issub':
+            return [(r, s2) for r, s2 in self.bi_issubclass(args, kwargs, st, node) if not isinstance(r, Raised)]
+        if name == 'callraises_as':
+            # callraises_as("NotImplementedError", fn, *args, **kw): the call raises an exception of that class
+            cname = args[0].py[1]
+            a = [self.toVal(x, st) for x in args[1:]]
+            names = sorted(kwargs)
+            a += [self.toVal(kwargs[k], st) for k in names]
+            suffix = ('_kw_' + '_'.join(names)) if names else ''
+            n = len(a) - 1
+            sig = [th.Val] * (n + 1)
+            cr = th.fn(f'craises_{n}{suffix}', *sig, th.B)(*a)
+            ec = th.fn(f'cexc_{n}{suffix}', *sig, th.Exc)(*a)
+            return [(VBool(z3.And(cr, th.exc_catches(cname, ec))), st)]
         if name == 'methv':
             return [(self.mkval(th.fn('methv_' + args[0].py[1], th.Val, th.Val, th.Val, th.Val)(V(1), V(2), V(3)),
                                 self.shape_of('.' + args[0].py[1] + '()')), st)]
